@@ -292,6 +292,14 @@ def laundering_rule(chk, prog, cands):
                           "safe fn %s (%s) returns a reference with lifetime %s derived through a raw pointer from an argument whose borrow is shorter (signature: %s)"
                           % (fn["pretty"], loc(span), [r.get("name", r["k"]) for r in out_regions], fn["sig"]), fn=fn["pretty"], file=loc(span))
             ok = False
+        # the same round trip whose result is STORED instead of returned (`a.other = Some(&*(b as *const _))`): the stored reference
+        # outlives the caller's borrow of b; no region test is possible on erased MIR, and none is needed - detaching the lifetime
+        # is the only thing such a round trip does
+        if stores_deref_of(fn["body"], d["local"]):
+            chk.violation("C16.L", "laundering-store:" + fn["pretty"],
+                          "safe fn %s (%s) re-borrows an argument through a raw pointer and stores the result into memory that outlives the call: the stored reference is no longer tied to the caller's borrow (signature: %s)"
+                          % (fn["pretty"], loc(span), fn["sig"]), fn=fn["pretty"], file=loc(span))
+            ok = False
         chk.evaluated(1, nontrivial=("laundering", fn["pretty"]))
     if ok:
         chk.discharge(key)
@@ -317,6 +325,47 @@ def returns_deref_of(body, ptr_local):
                 work.append(pl["l"])
             elif rv["k"] in ("use", "cast") and rv["op"]["k"] in ("copy", "move"):
                 work.append(rv["op"]["place"]["l"])
+    return False
+
+
+def stores_deref_of(body, ptr_local):
+    """True if a reference to (*ptr_local) flows (through moves, casts, aggregates such as Some(..)) into a store through a
+    dereference - i.e. into memory that outlives this call - or into a call argument together with such memory."""
+    # forward closure of locals carrying the reborrowed reference
+    carry = set()
+    changed = True
+    while changed:
+        changed = False
+        for bb in body["blocks"]:
+            if bb["cleanup"]:
+                continue
+            for st in bb["stmts"]:
+                if st["k"] != "assign" or st["place"]["p"]:
+                    continue
+                rv, dst = st["rv"], st["place"]["l"]
+                if dst in carry:
+                    continue
+                src = None
+                if rv["k"] in ("ref", "rawptr"):
+                    pl = rv["place"]
+                    if (pl["l"] == ptr_local and pl["p"] and pl["p"][0]["k"] == "deref") or (pl["l"] in carry and not pl["p"]) or \
+                            (pl["l"] in carry and len(pl["p"]) == 1 and pl["p"][0]["k"] == "deref"):      # reborrow &*r of a carried reference
+                        src = True
+                elif rv["k"] in ("use", "cast") and rv["op"]["k"] in ("copy", "move") and not rv["op"]["place"]["p"] and rv["op"]["place"]["l"] in carry:
+                    src = True
+                elif rv["k"] == "aggr" and any(o["k"] in ("copy", "move") and not o["place"]["p"] and o["place"]["l"] in carry for o in rv["ops"]):
+                    src = True
+                if src:
+                    carry.add(dst)
+                    changed = True
+    for bb in body["blocks"]:
+        if bb["cleanup"]:
+            continue
+        for st in bb["stmts"]:
+            if st["k"] == "assign" and any(p["k"] == "deref" for p in st["place"]["p"]):
+                ops = W.operands_of_rvalue(st["rv"])
+                if any(o["k"] in ("copy", "move") and not o["place"]["p"] and o["place"]["l"] in carry for o in ops):
+                    return True
     return False
 
 
@@ -442,6 +491,7 @@ def run(chk):
     chk.rule("C16.U", "every unsafe operation in a safe fn has a provenance justification")
     chk.rule("C16.L", "no raw-pointer lifetime laundering in safe fns")
     chk.rule("C16.P", "no safe dereference of a raw pointer stored in a publicly constructible field")
+    chk.rule("C16.V", "Reference<T> is invariant in T in the feature-less build (compile-fail witness + compiling twin)")
     chk.rule("C16.X", "unsafe constructor calls in the downstream expansion of to_dyn! receive the payload of the same-kind variant of the converted Reference through moves and pointer casts only (the validity invariant established when that Reference was built carries over)")
     chk.rule("C16.M", "exported macros never expand caller-supplied expressions inside their own unsafe blocks")
     chk.rule("C16.S", "raw-pointer -> Reference conversions are unsafe fn; Reference payload private")
@@ -460,6 +510,7 @@ def run(chk):
     def _inv_and_laundering(c, p):
         laundering_rule(c, p, inventory(c, p))
     selftest.expect(chk, "C16", _inv_and_laundering, "C16.L", "an accessor returning &'a T derived from &self through a raw pointer", "get_terminal")
+    selftest.expect(chk, "C16", _inv_and_laundering, "C16.L", "a safe fn storing a raw-pointer re-borrow of its argument", "laundering-store:link_laundered")
     selftest.expect(chk, "C16", inventory, "C16.P", "a safe Deref over a public raw-pointer variant", "Borrow")
     selftest.expect(chk, "C16", inventory, "C16.U", "a raw dereference of a pointer argument in a safe fn", "unjustified:unjustified")
     selftest.expect(chk, "C16", signature_rule, "C16.S", "a safe fn building a Reference from *mut T", "from_raw_safe")
@@ -472,6 +523,9 @@ def run(chk):
             sub_ops = W.unsafe_ops(p2)
             chk.extra["unsafe_ops_" + cfg] = len(sub_ops)
     import witness
+    # variance of Reference<T> in the feature-less build (only the raw-pointer variant exists there): a compile-fail witness with a
+    # compiling twin; a covariant payload (NonNull<T> instead of *mut T) lets safe code shorten Reference<&'static str>
+    witness.check(chk, "typelevel_nostd", "C16", "C16.V")
     if chk.tier == "thorough":
         witness.check(chk, "typelevel", "C16", "C16.witness")
     chk.assume("MaybeUninit/slice/pointer std functions behave as modelled", "aliasing of two Ptr References to one static mut is out of scope (documented caveat)")
